@@ -545,7 +545,11 @@ def _get_attribute_from_mro(
                     # If it's a callable, we'll probably do better
                     # getting the attribute from the type ourselves,
                     # because we may have our own implementation.
-                    if not isinstance(typeshed_type, CallableValue):
+                    # Similarly, typeshed gives us the type of a property as seen
+                    # on an instance, but on the class we get the descriptor itself.
+                    if not isinstance(typeshed_type, CallableValue) and not (
+                        on_class and _is_data_descriptor(base_cls, ctx.attr)
+                    ):
                         return typeshed_type, base_cls, False
 
                 try:
@@ -601,6 +605,15 @@ def _get_attribute_from_mro(
             return AnyValue(AnySource.inference), typ, True
 
     return UNINITIALIZED_VALUE, object, False
+
+
+def _is_data_descriptor(cls: type, attr: str) -> bool:
+    """Returns whether the attribute is a property or similar descriptor in the class's
+    own namespace."""
+    try:
+        return inspect.isdatadescriptor(cls.__dict__[attr])
+    except Exception:
+        return False
 
 
 def _static_hasattr(value: object, attr: str) -> bool:
